@@ -80,6 +80,17 @@ class ISet:
     def issubset(self, o):
         return self.minus(o).is_empty()
 
+    def enumerate(self, limit):
+        """the members as a list when the set is finite, integral and has at most `limit` members, else None"""
+        out = []
+        for lo, hi in self.iv:
+            if lo is None or hi is None or not isinstance(lo, int) or not isinstance(hi, int) or hi - lo + 1 > limit:
+                return None
+            out.extend(range(lo, hi + 1))
+            if len(out) > limit:
+                return None
+        return out
+
     # set algebra
     def union(self, o):
         return ISet(self.iv + o.iv)
